@@ -45,7 +45,7 @@ pub fn load_modules_for_program(
 
         let module_path = needs.path.join(".");
         let is_stdlib = module_path.starts_with("std.");
-        if let Some(module_info) = loader.get_module(&module_path) {
+        if let Some(module_info) = loader.get_module_for(&needs.path) {
             for native_name in &module_info.native_functions {
                 known_native_globals.insert(native_name.clone());
             }
@@ -176,7 +176,7 @@ pub fn load_modules_with_loader(
 
         let module_path = needs.path.join(".");
         let is_stdlib = module_path.starts_with("std.");
-        if let Some(module_info) = loader.get_module(&module_path) {
+        if let Some(module_info) = loader.get_module_for(&needs.path) {
             for native_name in &module_info.native_functions {
                 known_native_globals.insert(native_name.clone());
             }
